@@ -156,6 +156,11 @@ def cases(draw, tier):
                     ctl.append({'op': 'set_flag', 'i': draw(st.integers(0, nflags - 1)), 'v': draw(st.booleans())})
                     if draw(st.integers(0, 3)) == 0:
                         ctl[-1]['inv'] = True
+                elif r < 8 and draw(st.integers(0, 2)) == 0:
+                    # the value is changed through one of the operators of the tracked object (small non-negative integers)
+                    o = draw(st.sampled_from(['+', '-', '*', '//', '%', '**', '<<', '>>', '&', '|', '^']))
+                    v = draw(st.integers(1, 3)) if o in ('//', '%') else draw(st.integers(0, 2))
+                    ctl.append({'op': 'top', 'i': draw(st.integers(0, ntr - 1)), 'o': o, 'v': v})
                 elif r < 8:
                     ctl.append({'op': 'tset', 'i': draw(st.integers(0, ntr - 1)), 'v': draw(st.integers(0, 3))})
                 elif r < 9 and draw(st.booleans()):
